@@ -183,6 +183,8 @@ Error BaseCompiler::end_func() {
 // ==================================
 
 Error BaseCompiler::new_invoke_node(Out<InvokeNode*> out, InstId inst_id, const Operand_& o0, const FuncSignature& signature) {
+  *out = nullptr;
+
   InvokeNode* node = nullptr;
   ASMJIT_PROPAGATE(new_node_t<InvokeNode>(Out(node), inst_id, InstOptions::kNone));
 
